@@ -166,6 +166,50 @@ Theorem c17_next_arms_current_position : forall s u s',
   exists el f, ph s' = PArmed (retry_in (ropts s) (cur s) u) el f /\ cur s' = cur s.
 Proof. exact next_arms_current. Qed.
 
+(** ** Zero and negative back-offs (Multiplier < 1 decayed below 1 ns,
+    RandomizationFactor > 1): legal option sets outside [wf_opts].  All the
+    control theorems above hold for them (none assumes [wf_opts]); stated
+    explicitly: Next never hands out an attempt without going through its
+    select, and a loop told to stop before the call refuses whenever the select
+    looks before the runtime has fired the (already due) timer.  What the code
+    does NOT guarantee — and the model does not claim — is a refusal when the
+    runtime fires the due timer between time.After and the select
+    ([c17_no_attempt_after_close_refuted_race], with no time passed). *)
+Theorem c17_next_yields_only_through_select : forall s u s' ob,
+  is_reset s = false -> step s (LCallNext u) = Some (s', ob) ->
+  ob = OYield false \/
+  (ob = ONone /\ ph s' = PArmed (retry_in (ropts s) (cur s) u) 0 false /\
+   closed s' = closed s /\ cancelled s' = cancelled s).
+Proof. exact next_yields_only_through_select. Qed.
+
+Theorem c17_stopped_prompt_poll_refuses : forall s u s1 ob1,
+  closed s || cancelled s = true -> is_reset s = false ->
+  step s (LCallNext u) = Some (s1, ob1) ->
+  ob1 = OYield false \/
+  (ob1 = ONone /\ forall pick s2 ob2, step s1 (LPoll pick) = Some (s2, ob2) -> ob2 = OYield false).
+Proof. exact stopped_prompt_poll_refuses. Qed.
+
+Theorem c17_stopped_prompt_poll_enabled : forall s d el f,
+  ph s = PArmed d el f -> closed s || cancelled s = true ->
+  exists pick s', step s (LPoll (Some pick)) = Some (s', OYield false).
+Proof. exact stopped_prompt_poll_enabled. Qed.
+
+(** Non-vacuity: such delays exist (0 after 45 halvings of 1 us; negative and
+    zero with a randomisation factor of 5), a decayed loop told to stop refuses,
+    and the race needs no time to pass. *)
+Example c17_nonvacuous_nonpositive_delays :
+  retry_in decayed_opts 45 (1 # 2) = 0 /\ retry_in wide_opts 0 (1 # 10) = -2999999 /\ retry_in wide_opts 0 (2 # 5) = 0.
+Proof. exact nonpositive_delays. Qed.
+
+Example c17_nonvacuous_wide_stop :
+  (exists s, run (start wide_opts false false)
+      [LCallNext 0; LCloserClosed; LCallNext (1 # 10); LPoll (Some SelCloser)] =
+    Some (s, [OYield true; ONone; ONone; OYield false])) /\
+  (exists s, run (start wide_opts false false)
+      [LCallNext 0; LCloserClosed; LCallNext (1 # 10); LTimerFires; LPoll (Some SelTimer)] =
+    Some (s, [OYield true; ONone; ONone; ONone; OYield true])).
+Proof. split; eexists; vm_compute; reflexivity. Qed.
+
 (** ** WithMaxAttempts (as repaired by /repo commit 7eb790f): for every n >= 1,
     every success pattern [succ], every start and every label sequence: when
     it returns, fn was called at most n times, at least once if the closer was
